@@ -188,15 +188,15 @@ var allocTable = map[string]internalPanic{
 // nor bounded by the classifier's rules, with the reason their work is bounded;
 // keyed by function, with the number of such loops.
 var loopTable = map[string]internalPanic{
-	"(*lib/stringlib.unpacker).readVarInt":               {1, "fills at most 8 bytes of a fixed [8]byte (n < 8 in this branch)"},
 	"(*lib/stringlib/pattern.patternBuilder).getUnion":   {1, "every iteration consumes at least one byte of the pattern through pb.next(); bounded by len(pattern), which is held"},
 	"(*lib/stringlib/pattern.patternMatcher).match":      {1, "every iteration consumes budget (matchNext/getNext returned true), or advances pi (bounded by len(items)), or pops/decrements a trackback entry whose creation consumed budget (amortised: trackbacks <= budget consumed)"},
 	"(*lib/stringlib/pattern.patternMatcher).matchToEnd": {1, "every iteration ends in trackback(), which pops or decrements a trackback entry whose creation consumed budget"},
-	"(*runtime.Error).AddContext":                        {1, "walks up the continuation chain (c.Parent()): bounded by the chain, which is held memory"},
+	"(*runtime.Error).AddContext":                        {2, "both loops walk up the continuation chain (c.Parent()) and stop at its end: bounded by the chain, which is held memory (the depth counter only makes them stop earlier)"},
+	"lib/debuglib.getinfo":                               {1, "walks up the continuation chain (cont.Parent()) and stops at its end: bounded by the chain, which is held memory (the level argument only makes it stop earlier)"},
+	"lib/debuglib.traceback":                             {1, "walks down the continuation chain (cont.Next()) and stops at its end: bounded by the chain, which is held memory (the level argument only makes it stop earlier)"},
 	"(*runtime.Runtime).Traceback":                       {1, "one step per continuation in the chain (held memory); each step charges the bytes it appends"},
 	"(*runtime.Thread).RunContinuation":                  {1, "each iteration runs one continuation: Lua and Go continuations charge at least one unit, Termination returns a nil next, the message-handler continuation strictly shortens what is left (errContCount is bounded by maxErrorsInMessageHandler)"},
 	"(*runtime.Thread).cleanupCloseStack":                {1, "pops one pending to-be-closed value per iteration: bounded by the close stack (held memory); the __close call itself is metered"},
-	"(*runtime.array).next":                              {1, "scans the array part from i to a.len: bounded by the array (held memory)"},
 	"(*runtime.breader).readCode":                        {2, "sz was validated by checkLen against the bytes left in the input; every iteration reads at least one budgeted byte (readConst/readString consume budget)"},
 	"(*runtime.mixedTable).len":                          {1, "border search: one hash lookup per consecutive integer key present in the hash part (held memory)"},
 	"(lib/iolib.linebufWriter).Write":                    {1, "each iteration writes a non-empty prefix of p (i >= 1): bounded by len(p)"},
@@ -206,12 +206,8 @@ var loopTable = map[string]internalPanic{
 	"lib/stringlib.PackSize":                             {1, "one option per iteration of the format reader (hasNext/nextOption advance p.i): bounded by len(format)"},
 	"lib/stringlib.PackValues":                           {1, "one option per iteration of the format reader: bounded by len(format); each value written consumes budget"},
 	"lib/stringlib.UnpackString":                         {1, "one option per iteration of the format reader: bounded by len(format); each value read consumes budget"},
-	"lib/stringlib.bytef":                                {1, "i runs from max(1,i) to j = min(len(s), j): at most len(s) iterations, each pushing one value"},
-	"lib/stringlib.rep":                                  {1, "n-1 iterations, pre-charged by RequireBytes(n*len(s)+(n-1)*len(sep)) (an empty s and sep make the charge zero: value-level corner, not claimed)"},
-	"lib/stringlib.reverse":                              {1, "i <= len(s)/2, pre-charged by RequireBytes(len(s))"},
 	"runtime.findSlot":                                   {1, "small-table scan: j counts down from mask < smallHashTableSize (a constant)"},
 	"runtime.insertNewKeyValue":                          {1, "walks one collision chain of the hash part: bounded by the table (held memory; invariant I1: chains are finite)"},
-	"runtime.updateNextFree":                             {1, "nextFree only decreases, down to noNextFree: bounded by the number of slots"},
 }
 
 // meterRecursionTable: call-graph cycles without a metering function, keyed by
